@@ -13,9 +13,9 @@ CLAIMED = {
  "C03": ("Deductive proof, for all values of the supported universe, of one functional contract per operator: the result is the TLA+ value (stated over an abstract "
          "universe Val with kinds, projections and extensionality), the function panics with a TLA+ type error exactly under the stated condition (TLC's error conditions), "
          "every loop terminates (decreases clauses over the iterator model). Covered: =, #, ~, <=>, + - * unary- (with overflow), \\div % (floor semantics), comparisons, .., \\in, \\notin, \\cap, \\cup, \\subseteq, \\, "
-         "IsFiniteSet, Cardinality, UNION, Head, Tail, Append, Len, \\o, SubSeq, :>, @@, DOMAIN, Assert, and the Value accessors/constructors they rest on (verified against the representation by closed-world dispatch over the seven impl types).",
+         "IsFiniteSet, Cardinality, UNION, SUBSET (every member is a subset of S and there are 2^|S| members, hence all subsets by counting; this failed on the pinned tree: genuine defect, fixed in 2455a71f), Head, Tail, Append, Len, \\o, SubSeq, :>, @@, DOMAIN, Assert, and the Value accessors/constructors they rest on (verified against the representation by closed-world dispatch over the seven impl types).",
          "abs is *defined* by representation axioms (rep*) and the Val vocabulary of /verif/specs/10-tla.spec is trusted as a definition; benbjohnson/immutable is modelled (maps keyed by abs through tla.ValueHasher, iterators by a seen-set); "
-         "closed world for tla.impl; operators not yet under contract are listed in evidence under not_under_contract and are NOT covered: SUBSET, Seq, ToString, ^, quantifiers, CHOOSE, comprehension, EXCEPT, cross product, function/record sets.",
+         "closed world for tla.impl; operators not yet under contract are listed in evidence under not_under_contract and are NOT covered: Seq, ToString, ^, quantifiers, CHOOSE, comprehension, EXCEPT, cross product, function/record sets.",
          "contract-based deductive verification: WP over go/ssa, seen-set loop invariants, inductive/nonlinear lemmas, z3/cvc5"),
  "C01": ("Deductive proof of the critical-section protocol of the runtime core: LocalArchetypeResource keeps a snapshot discipline (Abort restores the value of the last commit, Commit publishes, Read/Write never touch the snapshot); "
          "MPCalContext.commit calls PreCommit on every touched resource before any Commit (ordering obligation at every Commit call), commits none and keeps the dirty set intact if any pre-commit yields an error, otherwise commits all and empties the set; "
